@@ -138,9 +138,9 @@ Definition case_spec_ok (cs : rcase) : bool :=
       | None => false
       end
   | CScanPrep c only obs =>
-      (* a scan configured from the filtered set never fails requirement validation; claimed on the
-         domain required_compatible (it is all of all_caps for the current registry, see Props_C19) *)
-      if required_compatible R c then prep_eqb obs PrepOk else true
+      (* a scan configured from the filtered set never fails requirement validation (no refutation on
+         file, so the oracle claims it for every capability tuple) *)
+      prep_eqb obs PrepOk
   end.
 
 Fixpoint bad_indices {A} (ok : A -> bool) (l : list A) (i : N) : list N :=
